@@ -280,18 +280,6 @@ theorem fd_s4 (c : FDCtx) (cs : List (Option Nat)) (r : List Nat) :
     evalS (fdPrims c) (envR r cs) () (fdStmt 4) = some (envR r cs, (), .ret (.tuple [.list (r.map encId), .nil])) := by
   go_simp [fdStmt, Progs.filterDependencies, envR, env0]
 
-theorem evalB_cons {σ : Type} (P : Prims σ) (env : Env) (w : σ) (s : Stmt) (rest : List Stmt) :
-    evalB P env w (s :: rest) =
-      match evalS P env w s with
-      | some (env', w', .norm) => evalB P env' w' rest
-      | other => other := by
-  rw [evalB]
-  cases evalS P env w s with
-  | none => rfl
-  | some x =>
-    obtain ⟨e, w', c⟩ := x
-    cases c <;> rfl
-
 theorem fd_tail (c : FDCtx) (cs : List (Option Nat)) (r2 : List Nat) (h2 : r2.isEmpty = false) :
     evalB (fdPrims c) (envR r2 cs) () [fdStmt 3, fdStmt 4] =
       some (envR (if r2.length > 1 && c.kind.isSingle then
